@@ -22,7 +22,9 @@ RULE = ('Generated network spec (netgen: 2-7 junctions, 1-2 tanks, pumps/valves/
         'pickle flag; 10 hand-built scenarios switch the curve of a pump that is shut off (or running) around pauses at 2-6 h. Report step ALL; rows on the hydraulic grid are compared. Non-trivial = the uninterrupted run converged and, after the first '
         'pause, some link status changes or some leak switches or a control threshold of a tank is crossed; distinct = '
         'SHA-1 of the case.')
-ASSUMPTIONS = ['runs that do not converge (uninterrupted or in parts) are inconclusive',
+ASSUMPTIONS = ['runs that do not converge (uninterrupted or in parts) are inconclusive, except: the uninterrupted run converged and a '
+               'continuation stops at the same row on two independent executions for a structural reason (not by running out '
+               'of Newton iterations)',
                'a status difference at a step where a tank level is within two seconds of flow of a control threshold or '
                'tank limit (event times are whole seconds and may move by 1-2 s when the model is rebuilt) is counted as '
                'ambiguous and ends the comparison of that case (inconclusive), it is not a violation',
@@ -250,7 +252,11 @@ def check(case):
                     if again.exception is not None or (not again.ok and k2 < k):
                         again = None
                         break
-                if again is not None and not again.ok and len(again.times) == len(run.times):
+                # (a Newton iteration that merely runs out of iterations is a numerical difficulty - the continuation starts
+                #  its first solve from other values than the uninterrupted run - and stays inconclusive; a structural
+                #  failure, e.g. a singular Jacobian or the trial limit, is judged)
+                numerical = any('Reached maximum number of iterations' in w for w in run.warnings)
+                if again is not None and not again.ok and len(again.times) == len(run.times) and not numerical:
                     last = int(run.times[-1]) if len(run.times) else None
                     return fail('continuation_stops/uninterrupted_run_converges',
                                 'the uninterrupted run converged to %d s, but part %d of the paused run (pauses %s) stops: '
